@@ -90,13 +90,26 @@ def case_strategy(draw):
                                   unique_by=lambda s: s.lower()).filter(
                 lambda xs: not ({x.lower() for x in xs} & {f.lower() for f in fnames})))
             efields = [(draw(st.sampled_from(TYPES)), n) for n in extra]
-            versions.append((tn, tuple(fields + efields)))
+            how = draw(st.sampled_from(["grow", "grow", "replace-last", "replace-first", "only-new"]))
+            # the next generation gains fields - and may at the same time have lost some (the table keeps them)
+            if how == "grow":
+                versions.append((tn, tuple(fields + efields)))
+            elif how == "replace-last":
+                versions.append((tn, tuple(fields[:-1] + efields)))
+            elif how == "replace-first":
+                versions.append((tn, tuple(efields + fields[1:])))
+            else:
+                versions.append((tn, tuple(efields)))
     ops = []
     n = draw(st.integers(1, 18))
     for _ in range(n):
         k = draw(st.integers(0, 9))
         if k == 0:
             ops.append(("flush",))
+        elif k == 1 and draw(st.booleans()):
+            # a record flow.record accepts but sqlite3 cannot bind (lone surrogate, integer beyond 64 bits): its
+            # write() raises, the producer carries on
+            ops.append(("refuse", draw(st.integers(0, len(versions) - 1))))
         else:
             vi = draw(st.integers(0, len(versions) - 1))
             vals = [draw(value_of(t)) for t, _ in versions[vi][1]]
@@ -176,6 +189,22 @@ def run_history(case, batch, path, ctx, observe_steps):
                 if len(written) % batch == 0:
                     commit_points.add(len(written))
                     mandatory = len(written)
+            elif op[0] == "refuse":
+                vi = op[1]
+                n_, fs_ = case["versions"][vi]
+                pos = next((i for i, (t, _) in enumerate(fs_) if t in ("string", "varint", "uri")), None)
+                if pos is None:
+                    continue
+                vals = [None] * len(fs_)
+                vals[pos] = 2**70 if fs_[pos][0] == "varint" else "\ud800"
+                rec = descs[vi](*vals, _generated=GEN)
+                if vi not in seen:
+                    seen.add(vi)
+                    commit_points.add(len(written))
+                res = impl(w.write, rec)
+                if res.ok:
+                    raise RuntimeError("harness: sqlite accepted the unbindable value %r" % (vals[pos],))
+                ctx.cls("write-raised-and-producer-continued")
             elif op[0] == "flush":
                 res = impl(w.flush)
                 if not res.ok:
@@ -209,8 +238,18 @@ def run_history(case, batch, path, ctx, observe_steps):
     return written
 
 
+def refused_versions(case):
+    """Versions of which an unbindable record is offered: their table / columns may exist without a row of theirs."""
+    out = []
+    for o in case["ops"]:
+        if o[0] == "refuse" and any(t in ("string", "varint", "uri") for t, _ in case["versions"][o[1]][1]):
+            out.append(o[1])
+    return out
+
+
 def check_rows(case, written, db, where, strict_tables):
     versions = case["versions"]
+    refused = refused_versions(case)
     per_table = {}
     for vi, rec in written:
         per_table.setdefault(versions[vi][0], []).append((vi, rec))
@@ -222,7 +261,8 @@ def check_rows(case, written, db, where, strict_tables):
         for vi, _ in written:
             if versions[vi][0] not in used:
                 used.append(versions[vi][0])
-        if sorted(db.keys()) != sorted(used):
+        maybe = {versions[vi][0] for vi in refused}
+        if not (set(used) <= set(db.keys()) <= set(used) | maybe):
             raise Violation("sqlite/tables", "%s: tables %r, expected %r" % (where, sorted(db.keys()), sorted(used)))
     for tn, items in per_table.items():
         if tn not in db:
@@ -237,7 +277,8 @@ def check_rows(case, written, db, where, strict_tables):
                     if n not in union:
                         union.append(n)
             exp_cols = set(union) | {"_source", "_classification", "_generated", "_version"}
-            if set(cols) != exp_cols or len(cols) != len(exp_cols):
+            extra_ok = {n for vi in refused if versions[vi][0] == tn for _, n in versions[vi][1]}
+            if not (exp_cols <= set(cols) <= exp_cols | extra_ok) or len(cols) != len(set(cols)):
                 raise Violation("sqlite/columns", "%s: table %r columns %r, expected %r" % (where, tn, cols, sorted(exp_cols)))
         for k, ((vi, rec), row) in enumerate(zip(items, rows)):
             rowd = dict(zip(cols, row))
